@@ -15,7 +15,7 @@ EXTENDS ArpHunt, Json
 CONSTANTS Mode, TraceFile
 VARIABLES ln,      \* next line to consume
           skip     \* the current behaviour contradicted a property-level predicate: its remaining lines are skipped
-tvars == <<hunt, loops, closed, offer, hostOf, pend, out, ev, refHunt, refClosed, refOffer, rl, poisoned, pre, ln, skip>>
+tvars == <<hunt, loops, closed, offer, hostOf, pend, captured, out, ev, refHunt, refClosed, refOffer, rl, poisoned, pre, ln, skip>>
 
 Trace == ndJsonDeserialize(TraceFile)
 HW == 1                                  \* TLC register: highest line consumed
@@ -52,7 +52,7 @@ Do(mm, rec, rr) ==
      THEN /\ mm /\ ev' = rec /\ out' = LFrames /\ PcsMatch
           /\ (HasList => ListOK /\ hunt' = LHunt)
      ELSE /\ ev' = rec /\ out' = LFrames
-          /\ UNCHANGED <<loops, closed, offer, hostOf, pend>>
+          /\ UNCHANGED <<loops, closed, offer, hostOf, pend, captured>>
           /\ hunt' = IF HasList /\ ListOK THEN LHunt
                      ELSE IF HasList THEN [m \in Targets |-> NoIP]          \* unreadable list: fails P_ListMatches unless nothing is hunted
                      ELSE [m \in Targets |-> IF m \in refHunt' THEN RouterIP ELSE NoIP]   \* list not observed on this line
@@ -65,7 +65,7 @@ Note == [kind |-> "note"]
 RecordFailure == (~skip /\ Verdict # "none") => TLCSet(VI, Append(TLCGet(VI), <<ln - 1, Verdict>>))
 TReset == /\ ln <= Len(Trace) /\ E.a = "reset" /\ ln' = ln + 1 /\ skip' = FALSE /\ RecordFailure
           /\ hunt' = [m \in Targets |-> NoIP] /\ loops' = <<>> /\ closed' = FALSE
-          /\ offer' = [m \in Targets |-> NoIP] /\ hostOf' = [ip \in LanIPs |-> NilMAC] /\ pend' = [m \in Targets |-> <<>>] /\ out' = <<>> /\ ev' = [kind |-> "init"]
+          /\ offer' = [m \in Targets |-> NoIP] /\ hostOf' = [ip \in LanIPs |-> NilMAC] /\ pend' = [m \in Targets |-> <<>>] /\ captured' = {} /\ out' = <<>> /\ ev' = [kind |-> "init"]
           /\ refHunt' = {} /\ refClosed' = FALSE /\ refOffer' = [m \in Targets |-> NoIP]
           /\ rl' = <<>> /\ poisoned' = [m \in Targets |-> FALSE] /\ pre' = NoPre
 
@@ -89,6 +89,8 @@ TAct == /\ IsEvent("act") /\ LoopKnown
 TRecv == /\ IsEvent("recv") /\ E.sm \in Targets /\ E.es \in Targets /\ E.si \in IpU /\ E.ti \in IpU
          /\ Do(RecvM(E.op, E.es, E.sm, E.si, E.ti),
                [kind |-> "recv", op |-> E.op, es |-> E.es, sm |-> E.sm, si |-> E.si, ti |-> E.ti], RecvR)
+TCapture == /\ (IsEvent("capture") \/ IsEvent("release")) /\ E.mac \in Targets
+            /\ Do(CaptureM(E.mac, E.a = "capture"), [kind |-> "capture", mac |-> E.mac, on |-> E.a = "capture"], IdleR)
 \* E.n overlapping StartHunt calls for one address, released together and joined
 TCStart == /\ IsEvent("cstart") /\ E.mac \in MacU /\ E.ip \in IpU
            /\ Do(ConcStartM(E.mac, E.ip, E.n),
@@ -97,7 +99,7 @@ TCStart == /\ IsEvent("cstart") /\ E.mac \in MacU /\ E.ip \in IpU
 
 \* ---- real-time vocabulary (hook events in the order of the handler mutex; frames from the connection)
 NoteStep(cond) == /\ (Mode = "M" => cond) /\ ev' = Note /\ out' = <<>> /\ IdleR
-                  /\ UNCHANGED <<hunt, loops, closed, offer, hostOf, pend>>
+                  /\ UNCHANGED <<hunt, loops, closed, offer, hostOf, pend, captured>>
 TRtLoop == /\ IsEvent("rt.loop") /\ LoopKnown
            /\ NoteStep(loops[E.l].mac = E.mac /\ rl[E.l].mac = E.mac)
 TRtCheck == /\ IsEvent("rt.check") /\ LoopKnown /\ E.tgt \in MacU
@@ -130,7 +132,7 @@ TSkip == /\ ~Live /\ ln <= Len(Trace) /\ E.a # "reset" /\ ln' = ln + 1 /\ skip' 
 
 TraceInit == /\ ln = 1 /\ skip = FALSE /\ TLCSet(HW, 0) /\ TLCSet(VI, <<>>) /\ Init
 
-TraceNext == \/ TPanic \/ TSkip \/ TReset \/ TStart \/ TStop \/ TClose \/ TOffer \/ TTick \/ TCheck \/ TAct \/ TRecv \/ TCStart
+TraceNext == \/ TPanic \/ TSkip \/ TReset \/ TStart \/ TStop \/ TClose \/ TOffer \/ TTick \/ TCheck \/ TAct \/ TRecv \/ TCStart \/ TCapture
              \/ TRtLoop \/ TRtCheck \/ TRtFrame \/ TRtDone
 
 TraceSpec == TraceInit /\ [][TraceNext]_tvars
